@@ -152,8 +152,12 @@ _pb("C11", "contract-based deductive verification (pyvc) of filter_by_length and
     "parameter file, the composition of the steps, the transformations that call delete_terminal repeatedly and trace "
     "handling are bounded only.",
     "proof for filter_by_length, delete_terminal and the two editing steps, bounded stand-in for the rest; 'other'")
-_pb("C12", "contract-based deductive verification (pyvc): lemmas over the contracts of lca and terminals (the target exists, is a constituent dominating both neighbours, and does not lie at or below the moved child) + mover step of root_attach; bounded stand-in against the set-based reference",
-    "root_attach's target is never None and is a constituent dominating both neighbours (lemma over the proved lca "
+_pb("C12", "contract-based deductive verification (pyvc): the right-boundary loop of root_attach as a block contract against the recursively defined walk over the root's children (ghost sequences EDGE / DONE; lemmas walk_step, edge_frozen, first_last_bounds), lemmas over the contracts of lca and terminals (the target exists, is a constituent dominating both neighbours, and does not lie at or below the moved child) + mover step of root_attach; bounded stand-in against the set-based reference",
+    "The loop that determines the right neighbour (focus / sibling walk over the root's children in order of their least "
+    "token) is proved, for every well-formed tree and root child, to compute exactly the documented walk: a sibling that "
+    "starts left of the current right edge is skipped, one that starts more than one token beyond it ends the walk, any other "
+    "is absorbed and moves the edge to its last token; t_r is the final edge + 1 (over the contracts of right_sibling and "
+    "terminals; terminates). root_attach's target is never None and is a constituent dominating both neighbours (lemma over the proved lca "
     "contract); it is neither the moved child nor below it, so the re-attachment creates no cycle (lemma over the "
     "contracts of terminals - complete and ordered - and lca, with the proved ancestor lemma); the root keeps another child "
     "(the left neighbour hangs below one); and the re-attachment step "
